@@ -45,6 +45,7 @@ func genC12(seed uint64, run int, tier string) Scenario {
 	}
 	sc.F = simnet.NoFaults()
 	flavour := pick(r, "dialogue", "dialogue", "plain", "escalation")
+	slow := false
 	switch flavour {
 	case "escalation":
 		sc.Driver = "network"
@@ -62,13 +63,32 @@ func genC12(seed uint64, run int, tier string) Scenario {
 			pw := tree.ByName["pw:"+ps.Name]
 			pw.Cmds = map[string]*peer.Reply{sc.Secondary: {Next: ps.Name}}
 			par := tree.ByName[ps.Previous]
-			switch pick(r, "asks", "asks", "grants", "refuses", "rejects") {
+			outcome := pick(r, "asks", "asks", "grants", "refuses", "rejects", "asks-slow")
+			if outcome == "asks-slow" && r.IntN(4) != 0 {
+				outcome = "asks"
+			}
+			switch outcome {
+			case "asks-slow":
+				// asks for the secret, accepts it, and takes a third to four fifths of the operation
+				// timeout to say so: the client must sit still meanwhile
+				if slow {
+					sc.Ex = append(sc.Ex, "asks:"+ps.Name)
+
+					break
+				}
+				slow = true
+				pw.Cmds = map[string]*peer.Reply{sc.Secondary: {Out: []peer.Tok{{S: "verifying", Delay: Micro(sc.TimeoutOpsUS * int64(between(r, 30, 60)) / 100)}}, Next: ps.Name}}
+				sc.Ex = append(sc.Ex, "asks:"+ps.Name)
 			case "rejects":
 				// asks for the secret and does not accept it: back to the lower prompt, every time
 				pw.Cmds = map[string]*peer.Reply{}
 				pw.Default = &peer.Reply{Out: []peer.Tok{{S: "% Bad secrets"}}, Next: par.Name}
 				pw.Empty = pw.Default
 				sc.Ex = append(sc.Ex, "rejects:"+ps.Name)
+				if r.IntN(2) == 0 {
+					// the refusal text is one of the driver's failure strings
+					sc.FailedWhen = []string{"% Bad secrets", "% Access denied"}
+				}
 			case "grants":
 				par.Cmds[ps.Escalate] = &peer.Reply{Next: ps.Name}
 				sc.Ex = append(sc.Ex, "grants:"+ps.Name)
@@ -212,7 +232,7 @@ func genC12(seed uint64, run int, tier string) Scenario {
 		sc.Class += "/slow-echo"
 		sc.CutEnum = false
 	}
-	sc.CutEnum = pickCutEnum(run, 10)
+	sc.CutEnum = pickCutEnum(run, 10) && !slow
 	if flavour == "dialogue" && r.IntN(5) == 0 {
 		// an earlier connection of the same process, to another device (same dialogues, other
 		// host name, hence a prompt pattern of its own), on which the caller uses the very same
